@@ -28,6 +28,9 @@ func (o Op) String() string {
 				a = "+"
 			}
 			s += " " + a + d.T.String()
+			if d.AlsoSet != nil {
+				s += fmt.Sprintf("[and subject_set %s:%s#%s]", d.AlsoSet.NS, d.AlsoSet.Obj, d.AlsoSet.Rel)
+			}
 		}
 		return s
 	default:
